@@ -11,7 +11,7 @@ from . import tlagen, tlaval, core, explore
 from .env_check import cand, G, L, DAY
 
 CLAUSE_PROPS = {"obs": ["C02"], "reward": ["C02"], "done": ["C02"], "trades": ["C02"], "holdings": ["C02"], "nlv": ["C02"],
-                "track": ["C02"], "delivered": ["C02"], "next_exec": ["C02"], "outcome": ["C02"], "tabular": ["C02"]}
+                "track": ["C02"], "history": ["C02"], "state_history": ["C02"], "delivered": ["C02"], "next_exec": ["C02"], "outcome": ["C02"], "tabular": ["C02"]}
 
 
 def hx(x):
@@ -117,6 +117,14 @@ def _outputs(w, call, out, val):
     tr = env.broker.track_record
     o["track"] = [(str(tr[i].time), hx(tr[i].context_pre.nlv), hx(tr[i].context_post.nlv), len(tr[i].trades)) for i in range(len(tr))]
     o["delivered"] = [(e["kind"], e["id"], str(e["t"]), str(e["clk"])) for e in w.sink.entries]
+    # what the observation features and the state have recorded so far (Feature.history / IState.history): stamps and values
+    st = getattr(env, "state", None)
+    hist = []
+    for f in (getattr(st, "features", None) or []):
+        if getattr(f, "name", "") == "verif-obs":
+            hist.append([(str(k), np.asarray(v, dtype=float).tobytes().hex()) for k, v in (f.history or {}).items()])
+    o["history"] = hist
+    o["state_history"] = [str(k) for k in (getattr(st, "history", None) or {})]
     return o
 
 
